@@ -127,6 +127,14 @@ def check_proc(src_expr: str, cmd: str, rest: str, method: str, prefix: str, suf
     got = [getattr(a, "value", None) for a in calls[0].args]
     if got != [cmd, rest]:
         return {"kind": "rest-not-verbatim", "src": src, "got": got, "want": [cmd, rest]}
+    # the code on the following lines parses as it does alone
+    after = suffix.split("\n", 1)[1] if "\n" in suffix else ""
+    if after.strip() and "\n" not in prefix:
+        ref_after, _o = impl.parse_tree(after, "exec", variant=variant)
+        if ref_after is not None:
+            d = impl.ast_diff(ast.Module(body=tree.body[1:], type_ignores=[]), ref_after, with_attrs=False)
+            if d:
+                return {"kind": "following-statements-differ", "src": src, "diffs": d[:3]}
     return {"ok": True, "src": src}
 
 
@@ -152,7 +160,8 @@ def build_inputs(tier):
         cases.append(("with", (s, ctx, body, r.choice(AFTER), r.choice(BEFORE))))
     for _ in range(400 * N):
         x, cmd, rest, m = xonshgen.gen_proc_macro(r)
-        pre, suf = r.choice([("", "\n"), ("x = ", "\n"), ("print(", ")\ny = 2\n"), ("", " and q\n")])
+        pre, suf = r.choice([("", "\n"), ("x = ", "\n"), ("print(", ")\ny = 2\n"), ("", " and q\n"), ("", "\ny = f(1, 2)\n"), ("x = ", " + f(1, 2)\n"),
+                             ("", "\nif a:\n    b = [1, 2]\nz = g(3, 4)\n"), ("w = ", "\nv = g!(p q)\n")])
         cases.append(("proc", (x, cmd, rest, m, pre, suf)))
     return cases
 
